@@ -1,3 +1,112 @@
 package main
 
-func cmdRand(args []string) { die("not implemented yet") }
+import (
+	"bufio"
+	"encoding/json"
+	"flag"
+	"fmt"
+	"math/rand"
+	"os"
+
+	"verifharness/gh"
+)
+
+// rand -prop ID -n N -seed S -out TRACE: seeded random definitions and command lines for one property's
+// driver profile, run on the real library.
+func cmdRand(args []string) {
+	fs := flag.NewFlagSet("rand", flag.ExitOnError)
+	prop := fs.String("prop", "", "profile name")
+	n := fs.Int("n", 1000, "number of cases")
+	seed := fs.Int64("seed", 1, "seed")
+	out := fs.String("out", "", "trace file")
+	idBase := fs.Int("idbase", 1000000000, "first case id")
+	fs.Parse(args)
+	p, ok := gh.Profiles[*prop]
+	if !ok {
+		die("no profile %s", *prop)
+	}
+	r := rand.New(rand.NewSource(*seed))
+	f, err := os.Create(*out)
+	if err != nil {
+		die("%v", err)
+	}
+	w := bufio.NewWriterSize(f, 1<<20)
+	cases, nontrivial, id, defID := 0, 0, 0, 0
+	seen := map[string]bool{}
+	for cases < *n {
+		defID++
+		cfg := gh.GenDef(r, &p)
+		d := gh.Def{Ev: "def", ID: defID, Cfg: cfg, Disp: p.Disp, SP: true}
+		per := 1 + r.Intn(6)
+		argvs := [][]gh.Tok{}
+		all := []gh.Tok{}
+		for k := 0; k < per; k++ {
+			a := gh.ToksOf(gh.GenArgv(r, &p, &cfg))
+			argvs = append(argvs, a)
+			all = append(all, a...)
+		}
+		d.Orc = gh.OracleFor(&d.Cfg, all)
+		base := gh.Case{Ev: "case", Def: defID, Argv: []gh.Tok{}, Disp: p.Disp}
+		baseRaw := gh.RunCase(&d, &base).Raw
+		block := [][]byte{}
+		for _, a := range argvs {
+			id++
+			c := gh.Case{Ev: "case", Def: defID, ID: *idBase + id, Argv: a, Disp: p.Disp}
+			c.Res = gh.RunCase(&d, &c)
+			line, _ := json.Marshal(&c)
+			block = append(block, line)
+			cases++
+			key := fmt.Sprintf("%v|%v", d.Cfg, a)
+			if c.Res.Raw != baseRaw && !seen[key] {
+				nontrivial++
+			}
+			seen[key] = true
+			if c.Res.Hang {
+				writeBlock(w, &d, block)
+				w.Flush()
+				fmt.Printf("HANG case=%d\n", id)
+				fmt.Printf("rand cases=%d nontrivial=%d\n", cases, nontrivial)
+				os.Exit(3)
+			}
+		}
+		writeBlock(w, &d, block)
+	}
+	w.Flush()
+	f.Close()
+	fmt.Printf("rand cases=%d nontrivial=%d\n", cases, nontrivial)
+}
+
+// rerun -in REPLAY.json -out TRACE: run the recorded case again on the current tree.
+func cmdRerun(args []string) {
+	fs := flag.NewFlagSet("rerun", flag.ExitOnError)
+	in := fs.String("in", "", "replay file")
+	out := fs.String("out", "", "trace file")
+	fs.Parse(args)
+	b, err := os.ReadFile(*in)
+	if err != nil {
+		die("%v", err)
+	}
+	var rec struct {
+		Def  gh.Def  `json:"def"`
+		Case gh.Case `json:"case"`
+	}
+	if err := json.Unmarshal(b, &rec); err != nil {
+		die("bad replay file: %v", err)
+	}
+	rec.Def.Cfg.Normalize()
+	rec.Def.Ev = "def"
+	rec.Case.Ev = "case"
+	rec.Def.SP = true
+	rec.Def.Orc = gh.OracleFor(&rec.Def.Cfg, rec.Case.Argv)
+	rec.Case.Res = gh.RunCase(&rec.Def, &rec.Case)
+	f, err := os.Create(*out)
+	if err != nil {
+		die("%v", err)
+	}
+	w := bufio.NewWriter(f)
+	line, _ := json.Marshal(&rec.Case)
+	writeBlock(w, &rec.Def, [][]byte{line})
+	w.Flush()
+	f.Close()
+	fmt.Printf("rerun cases=1\n")
+}
